@@ -642,7 +642,24 @@ def top_level_frame(op, before, after):
 
 MANIFEST = {
     "category": "proof",
-    "technique": "Coq model of config paths/typed access/YAML codec with theorems + extracted-model vs real-code correspondence (bytes, trees, API histories)",
-    "text": "see MANIFEST text below",
-    "note": "",
+    "technique": "Coq model of config key paths, typed access and the YAML scalar/tree codec with kernel-checked theorems + extracted-model "
+                 "vs real-code correspondence (emitted bytes, reloaded trees, API histories with the tree after every call)",
+    "text": "Properties_C18.v proves over the Gallina port of config_data.cc / config_types.cc / config_cow_ref.h (coq/Cfg): get-after-set "
+            "for config_set_string/int/bool at every path built from map keys, @N, @next, @last, @before N, @after N (read back at the same "
+            "path, @next at @last; unconditional on resolved steps), the meaning of each form, the frame property (every resolved path that "
+            "leaves the written path is unchanged, shifted by one behind an insertion point), refusal without change on nodes of the wrong "
+            "kind, int/bool text conversions (std::to_string/stoi/strtoul semantics), and the scalar codec round trip load_scalar (emit_scalar "
+            "s) = s for every scalar of the property's domain in block and flow context, against a model of yaml-cpp 0.7's emitter and loader "
+            "for the emitted subset; the same statement is refuted for EmitScalar as it was before the repair commit (witness \" a\\n\"). "
+            "Tree round trip: full statement kept as a Definition, base layer (single scalar) proved, collections by correspondence only. "
+            "All induction, no bounds. Every run re-ties the model to /repo: ~5000 (thorough ~17000) generated trees and 250 (1500) API "
+            "histories are run through the extracted model and through the real code (ASan/UBSan build); bytes, trees, results are diffed "
+            "and the property's oracles are evaluated on the implementation's observations.",
+    "note": "No axioms (Print Assumptions: closed under the global context for all theorems). Trusted: Coq kernel (+vm_compute for the "
+            "refutation witnesses); the model of yaml-cpp 0.7.0's emitter/loader in coq/Cfg/Yaml.v is a port from the upstream text fitted to "
+            "probes (library source not in the sandbox) and is validated only by correspondence; ExtrOcamlBasic extraction and the OCaml/C++ "
+            "glue. Gaps: doubles (to_string(double)/stod) are checked on the implementation only; tree_roundtrip is partial (see text); "
+            "paths with empty components and list indices >= 2^32 are outside the theorems. Known findings reported on every run: Unicode "
+            "noncharacters are replaced by U+FFFD by yaml-cpp's emitter; map keys whose escaped form exceeds 1024 bytes make the saved file "
+            "unloadable.",
 }
